@@ -14,14 +14,18 @@ def run(c):
               "spellings, legacy .dawnconfig files and tags that are not canonical versions (look-alikes of tagged versions and "
               "short-form / build-metadata tags newer than every canonical one — not part of the universe). Fault injection, two "
               "scenarios per edit out of {dial, tag listing, fetch} x {fails once at the n-th call, down for the whole edit} x "
-              "{cold, warm module cache}. Non-trivial = at least one operation of the sequence succeeds."),
+              "{cold, warm module cache} — on every fifth edit (one scenario) in the quick tier, on every edit (two scenarios) in "
+              "the thorough tier and in replays. Reqs.Upgrade / Reqs.Previous are judged on every tagged version of every case. "
+              "Non-trivial = at least one operation of the sequence succeeds."),
         judge_note="tidy: build list unchanged; get as add/upgrade/no-op: new build list has the project at >= the resolved "
                    "version (above only if the resolved version itself requires it) and lowers/removes nothing; get as "
                    "downgrade: project absent or <= resolved; upgrade-all: nothing lowered, every project >= its newest "
                    "release tag of the same major; names of surviving projects unchanged, one fresh name per new project; "
                    "op(op c) == op c; no hang, no panic; result independent of map order (3 runs); the result written as "
                    "dawn.toml loads again; under an injected fault an edit returns an error or exactly its fault-free result and "
-                   "leaves its input alone, and after the fault clears the same and a fresh resolver give the fault-free result")
+                   "leaves its input alone; a query resolves to a version of the project asked for, a patch query stays in its "
+                   "major.minor line; Reqs.Upgrade / Reqs.Previous stay in the project and its major version line, answer canonical "
+                   "tags, go up resp. strictly down; after the fault clears the same and a fresh resolver give the fault-free result")
 
 
 def replay(c, case):
